@@ -136,6 +136,7 @@ class SimFS:
         self.ctimes: dict = {}  # abspath -> ns, consulted by Path.stat
         # file modification times as a seam: with coarse_mtime the timestamp of a write is a virtual clock that
         # the tape advances by 0 or 1 per write (coarse-granularity file systems: equal mtimes for quick rewrites)
+        self.read_yields = False  # directory listings and stat() of scratch paths are pre-emption points as well
         self.coarse_mtime = False
         self.mtimes: dict = {}
         self.mtime_now = 1_700_000_000
@@ -298,8 +299,10 @@ def _rename(src, dst, *, src_dir_fd=None, dst_dir_fd=None):
 
 
 def _listdir(path="."):
-    res = _real["listdir"](path)
     g = _fs_for(path) if not isinstance(path, int) else None
+    if g is not None and g[0].read_yields:
+        g[0].sim.kernel.yield_point("fs:listdir")
+    res = _real["listdir"](path)
     if g is not None:
         fs = g[0]
         res.sort()
@@ -313,6 +316,8 @@ def _scandir(path="."):
     if g is None:
         return _real["scandir"](path)
     fs = g[0]
+    if fs.read_yields:
+        fs.sim.kernel.yield_point("fs:scandir")
     with _real["scandir"](path) as it:
         entries = sorted(it, key=lambda e: e.name)
     if fs.permute_dirs and len(entries) > 1:
@@ -321,8 +326,11 @@ def _scandir(path="."):
 
 
 def _path_stat(self, *, follow_symlinks=True):
-    st = _real["path_stat"](self, follow_symlinks=follow_symlinks)
     sim = context.CURRENT
+    if sim is not None and sim.fs is not None and sim.fs.read_yields and sim.kernel.in_sim_thread() \
+            and os.fspath(self).startswith(sim.fs.root_slash):
+        sim.kernel.yield_point("fs:stat")
+    st = _real["path_stat"](self, follow_symlinks=follow_symlinks)
     if sim is not None and sim.fs is not None and (sim.fs.ctimes or sim.fs.mtimes):
         ap = os.path.abspath(os.fspath(self))
         c = sim.fs.ctimes.get(ap)
